@@ -245,7 +245,7 @@ def wrapper_check(res, h, fn, ins, nout, key, obligations, asm, sym_sampler, max
                             if vb.status == "holds":
                                 vb.how = "equal up to compile-time rounding of basis constants on the stated box: " + vb.how
                                 v = vb
-            except T.PolyTooBig:
+            except (T.PolyTooBig, MemoryError):
                 v = solver.Verdict("undecided", "normal form too large / time budget")
             if v.status == "holds":
                 res.add(oname, v)
